@@ -690,6 +690,30 @@ fn m_network_out(r: &mut Rng, _c: &MutCtx, w: &World) -> Option<World> {
     });
     Some(n)
 }
+/// the whole transaction moved to network 0 (environment and every output address), except one
+/// output that sits on another non-mainnet network id (2..15): "not mainnet" is not "this network"
+fn m_network_out_other_testnet(r: &mut Rng, _c: &MutCtx, w: &World) -> Option<World> {
+    let outs = outputs(&w.tx);
+    let odd = r.usize_below(outs.len());
+    let mut n = w.clone();
+    n.env.network_id = 0;
+    for i in 0..outs.len() {
+        let mut a = parse_output(&outs[i])?.addr;
+        if a.first()? >> 4 > 7 {
+            return None;
+        }
+        a[0] = (a[0] & 0xf0) | if i == odd { 2 + r.below(14) as u8 } else { 0 };
+        n.tx = edit_output(&n.tx, i, |o| {
+            if let Some(x) = out_address_mut(o) {
+                *x = Node::bytes(&a)
+            }
+        });
+    }
+    if body_get(&n.tx, 15).is_some() {
+        n.tx = body_set(&n.tx, 15, Some(Node::u(0)));
+    }
+    Some(n)
+}
 fn m_network_body(_r: &mut Rng, c: &MutCtx, w: &World) -> Option<World> {
     if matches!(c.f.era, Era::Shelley | Era::Allegra | Era::Mary) {
         return None;
@@ -1050,7 +1074,7 @@ fn m_language(_r: &mut Rng, c: &MutCtx, w: &World) -> Option<World> {
     Some(n)
 }
 
-const MUTATORS: [(&str, &str, MutFn); 33] = [
+const MUTATORS: [(&str, &str, MutFn); 34] = [
     ("validity-interval", "ttl==slot(upper bound exclusive in the ledger specification)", m_ttl_equals_slot),
     ("inputs-nonempty", "inputs=[]", m_inputs_empty),
     ("inputs-in-utxo", "utxo-entry-of-an-input-removed", m_input_missing),
@@ -1063,6 +1087,7 @@ const MUTATORS: [(&str, &str, MutFn); 33] = [
     ("min-ada", "output-coin-below-any-minimum", m_min_ada),
     ("value-size", "output-value-larger-than-max-value-size", m_value_size),
     ("network-id-outputs", "output-address-of-another-network", m_network_out),
+    ("network-id-outputs", "transaction-on-network-0-with-one-output-on-network-2..15", m_network_out_other_testnet),
     ("network-id-body", "body-network-id-of-another-network", m_network_body),
     ("collateral-count", "no-collateral", m_collateral_none),
     ("collateral-count", "more-than-max-collateral-inputs", m_collateral_too_many),
